@@ -275,8 +275,38 @@ def contract_text(fs, labels, lineno_base):
     return out
 
 
+def bind_param_names(em, us):
+    """`params a b -`: the contract of a function refers to its parameters by these names; a parameter the
+    source leaves unnamed (or renames) is renamed in the emitted text, so that such an edit fails an obligation
+    instead of breaking the binding of the sidecar"""
+    for fs in us.order:
+        if not getattr(fs, 'params', None) or fs.name not in em.fn_proto:
+            continue
+        proto = em.fn_proto[fs.name]
+        m = re.match(r'^(.*?)\b%s\((.*)\);$' % re.escape(fs.name), proto)
+        if not m or m.group(2).strip() == 'void':
+            continue
+        names = []
+        for a in cxx2c.split_top(m.group(2)):
+            mm = re.match(r'^(.*?)(\w+)(\[\d*\])?$', a.strip())
+            names.append(mm.group(2))
+        off = 1 if names and names[0] == 'self' else 0
+        for i, want in enumerate(fs.params):
+            if want == '-' or off + i >= len(names):
+                continue
+            have = names[off + i]
+            if have == want:
+                continue
+            if re.search(r'\b%s\b' % re.escape(want), em.fn_text[fs.name]):
+                continue    # the wanted name is used for something else: leave the binding to fail visibly
+            rx = re.compile(r'\b%s\b' % re.escape(have))
+            em.fn_text[fs.name] = rx.sub(want, em.fn_text[fs.name])
+            em.fn_proto[fs.name] = rx.sub(want, em.fn_proto[fs.name])
+
+
 def assemble(ub):
     em, lib, us = ub.em, ub.lib, ub.spec
+    bind_param_names(em, us)
     L = LineList()
     L.append('/* generated by cxx2c from %s -- do not edit */' % REPO)
     L.append('#include "models/std.h"')
